@@ -201,7 +201,7 @@ func extractConc() {
 
 	capEvict, deliverLast := mem.capEvict()
 	g.def("memCapEvict", "String", leanStr(capEvict),
-		"mem AddMessage, inside the closure passed to the lock wrapper: one delete(<box>.<map>, key) in a loop whose condition has the conjunct len(<box>.<map>) > <recv>.<cap> (cap = the field initialised from MailboxMsgCap) with <recv>.<cap> > 0 known, key = strconv.Itoa(<box>.<first>) and <box>.<first>++ once per iteration; \"collectsAndNotifies\" = the deleted value is appended (under the same conditions as the delete) to a slice declared outside the closure, and after the wrapper call a range over that slice reaches AfterMessageDeleted.Emit of the element and the un-registering send carrying the element; \"silent\" = nothing is collected and AddMessage reaches neither an Emit nor an un-registering send")
+		"mem AddMessage, inside the closure passed to the lock wrapper (unexported helpers walked as if inlined): one delete(<box>.<map>, key) in a loop whose condition has the conjunct len(<box>.<map>) > <recv>.<cap> (cap = the field initialised from MailboxMsgCap) with <recv>.<cap> > 0 known, key = strconv.Itoa(<box>.<first>) and <box>.<first>++ once per iteration; \"collectsAndNotifies\" = the deleted value is appended (under the same conditions as the delete) to a slice declared outside the closure (directly, or in a helper the closure calls that returns the slice on every path and whose result the closure assigns to such a slice), and after the wrapper call a range over that slice reaches AfterMessageDeleted.Emit of the element and the un-registering send carrying the element; \"silent\" = nothing is collected and AddMessage reaches neither an Emit nor an un-registering send")
 	g.def("memSeenAtomic", "Bool", ccBool(mem.seenAtomic()),
 		"mem Message has exactly one field of type atomic.Bool (sync/atomic); Message.Seen is `return <recv>.<that field>.Load()` and Store.MarkSeen reaches exactly one <x>.<that field>.Store(true)")
 	g.def("memStoreLockReleasedBeforeBoxLock", "Bool", ccBool(mem.withMailboxShape()),
@@ -1510,6 +1510,90 @@ func ccIsEmit(ce *ast.CallExpr) bool {
 	return ok && se.Sel.Name == "AfterMessageDeleted"
 }
 
+// ccEnclInside: in the inlined view of c, `inner` is nested inside `outer` (both enclose the site).
+func ccEnclInside(c *ccCtx, inner, outer ast.Node) bool {
+	io, ii := -1, -1
+	for i, e := range c.encl {
+		if e == outer && io < 0 {
+			io = i
+		}
+		if e == inner {
+			ii = i
+		}
+	}
+	return io >= 0 && ii > io
+}
+
+// ccReturnsOnly: fd has exactly one result and every return statement of its body (function literals apart) hands back
+// the variable v: `return v`, or a bare return where v is the named result.
+func ccReturnsOnly(fd *ast.FuncDecl, v *ast.Object) bool {
+	if fd == nil || fd.Body == nil || fd.Type.Results == nil || len(fd.Type.Results.List) != 1 || len(fd.Type.Results.List[0].Names) > 1 {
+		return false
+	}
+	named := len(fd.Type.Results.List[0].Names) == 1 && fd.Type.Results.List[0].Names[0].Obj == v
+	if v.Pos() < fd.Pos() || v.Pos() >= fd.End() {
+		return false
+	}
+	n, ok := 0, true
+	ast.Inspect(fd.Body, func(x ast.Node) bool {
+		switch r := x.(type) {
+		case *ast.FuncLit:
+			return false
+		case *ast.ReturnStmt:
+			n++
+			switch {
+			case len(r.Results) == 0 && named:
+			case len(r.Results) == 1 && ccIsVar(r.Results[0], v):
+			default:
+				ok = false
+			}
+		}
+		return true
+	})
+	return ok && n > 0
+}
+
+// ccFlowsOut: the variable of `top`, declared outside the closure `lit`, that a value appended to v at site s ends up
+// in: v itself when s is written in top (not in a helper) and v is declared there before the closure; when s is written
+// in an inlined helper that returns v on every path and whose call is the whole right-hand side of a plain assignment
+// `w = helper(..)`, the same question for w at that assignment (helpers nest up to the scan depth).  nil = not understood.
+func ccFlowsOut(sites []ccSite, p *ccPkg, s ccSite, v *ast.Object, top *ast.FuncDecl, lit *ast.FuncLit) *ast.Object {
+	c := s.c
+	for depth := 0; depth <= ccDepth && v != nil && c != nil; depth++ {
+		if c.parent == nil || c.fn == top {
+			if c.fn == top && v.Pos() >= top.Pos() && v.Pos() < lit.Pos() {
+				return v
+			}
+			return nil
+		}
+		if !ccReturnsOnly(c.fn, v) || len(c.key) == 0 {
+			return nil
+		}
+		at := c.key[len(c.key)-1]
+		var next *ccSite
+		for i, t := range sites {
+			as, ok := t.n.(*ast.AssignStmt)
+			if !ok || as.Tok != token.ASSIGN || len(as.Lhs) != 1 || len(as.Rhs) != 1 || !t.c.inLit(lit) {
+				continue
+			}
+			ce, ok := ccStrip(as.Rhs[0]).(*ast.CallExpr)
+			if !ok || ce.Pos() != at || p.callee(ce, t.c.fn) != c.fn || len(t.c.key) != len(c.key)-1 {
+				continue
+			}
+			if next != nil {
+				return nil
+			}
+			next = &sites[i]
+		}
+		if next == nil {
+			return nil
+		}
+		v = ccObjOf(next.n.(*ast.AssignStmt).Lhs[0])
+		c = next.c
+	}
+	return nil
+}
+
 // facts 5 and 8
 func (m *ccMem) capEvict() (string, bool) {
 	add := m.p.method("Store", "AddMessage")
@@ -1604,7 +1688,8 @@ func (m *ccMem) capEvict() (string, bool) {
 			capPos = true
 		}
 	}
-	if loop == nil || !capPos || !ccWithin(loop, lit) {
+	// the loop runs inside the closure in the INLINED view (it may be written in a helper the closure calls)
+	if loop == nil || !capPos || !ccEnclInside(del.c, loop, lit) {
 		return "unknown", false
 	}
 	// the key is Itoa(<box>.<first>) and <box>.<first> is incremented once per iteration
@@ -1645,7 +1730,13 @@ func (m *ccMem) capEvict() (string, bool) {
 		}
 		nApp++
 		v := ccObjOf(as.Lhs[0])
-		if v == nil || len(ce.Args) != 2 || !ccIsVar(ce.Args[0], v) || v.Pos() >= lit.Pos() || ce.Ellipsis.IsValid() {
+		if v == nil || len(ce.Args) != 2 || !ccIsVar(ce.Args[0], v) || ce.Ellipsis.IsValid() {
+			continue
+		}
+		// the slice the value ends up in: v itself when it is declared in AddMessage outside the closure; when the
+		// append is written in a helper, the variable outside the closure that receives the helper's result
+		v = ccFlowsOut(sites, m.p, s, v, add, lit)
+		if v == nil {
 			continue
 		}
 		d := ccDefRhs(ccObjOf(ce.Args[1]))
